@@ -393,9 +393,10 @@ def cmd_check(cid: str, tier: str) -> int:
     if err:
         print(f"HARNESS-ERROR property={cid} evidence invalid: {err}")
         return 2
-    os.makedirs(EVIDENCE_DIR, exist_ok=True)
-    with open(os.path.join(EVIDENCE_DIR, f"{cid}.json"), "w", encoding="utf-8") as fh:
-        json.dump(ev, fh, ensure_ascii=True, indent=1, sort_keys=True)
+    if not os.environ.get("VERIF_NO_EVIDENCE"):
+        os.makedirs(EVIDENCE_DIR, exist_ok=True)
+        with open(os.path.join(EVIDENCE_DIR, f"{cid}.json"), "w", encoding="utf-8") as fh:
+            json.dump(ev, fh, ensure_ascii=True, indent=1, sort_keys=True)
     print(f"{cid} {tier}: runs={tot['runs']} steps={tot['steps']} distinct={len(tot['keys'])} "
           f"violations={len(new_violations)} known={sum(known_seen.values())} "
           f"wall={wall:.1f}s digest={h.hexdigest()[:16]}")
